@@ -117,7 +117,7 @@ def compositions(n, k):
 
 
 def correspondence(run):
-    trees = gen_cases(run, run.budget(1500, 30000))
+    trees = gen_cases(run, run.budget(1500, 8000))
     for n in range(1, (5 if run.tier == "quick" else 6) + 1):
         trees.extend(small_trees(n))
     rep = run.ask([sexp.tag("layout", rsexp.tree(t)) for t in trees])
@@ -289,7 +289,7 @@ def oracle(run):
     trees = []
     for g, inp in run.focus:
         pass  # disagreement inputs are S-expressions; the random budget below is escalated instead
-    trees += gen_cases(run, run.budget(1200, 20000))
+    trees += gen_cases(run, run.budget(1200, 6000))
     small = []
     for n in range(1, (5 if run.tier == "quick" else 6) + 1):
         small.extend(small_trees(n))
